@@ -51,6 +51,7 @@ inductive Kind
 inductive Cat
   | none | number | string | scalar | any | untyped | coll | struct | inline | wrap
   | enum        -- an Enum option of a delegating wrapper (`Enum.serialize` returns whatever it is given)
+  | tupl        -- a Tuple option of a multi-field wrapper (its values are tuples: code that copies "the mutable kinds" skips them)
   deriving DecidableEq, Repr, Inhabited
 
 inductive Mode
@@ -174,6 +175,14 @@ def Shape.cat : Shape → Cat
   | .wrap _ _ => .wrap
   | .wrapN _ _ _ => .wrap
   | .owned s => s.cat
+
+/-- the category under which a multi-field WRAPPER's row is looked up: as `cat`, with the Tuple declarations split off
+    (a tuple is an immutable container: what a wrapper does with "the mutable kinds" need not happen to it) -/
+def Shape.wcat : Shape → Cat
+  | .coll .tuple _ => .tupl
+  | .keyed .tuplePos _ => .tupl
+  | .owned s => s.wcat
+  | s => s.cat
 
 /-! ## transformers -/
 
@@ -338,7 +347,7 @@ def fallbackSite (k : Kind) (p : Pick) (opts : List Shape) : Kind × Cat :=
   match p with
   | .firstFit => (k, .untyped)
   | .fixed n => match opts[n]? with
-    | some s => (.misfit, s.cat)
+    | some s => (.misfit, s.wcat)
     | none => (k, .untyped)
 
 /-- one step through the option list: option 0 is the chosen one, otherwise look further -/
@@ -375,7 +384,7 @@ def transfer (M : Kind → Cat → Mode) (fuel : Nat) : Shape → Heap → Item 
   | .untyped, h, i => leafAny (M .any .none) fuel h i
   | .coll k s, h, i => nodeColl (M k s.cat) fuel (fun h' i' => transfer M fuel s h' i') h i
   | .keyed k fs, h, i => nodeRec (M k .none) fuel (fun h' its => transferFields M fuel fs h' its) h i
-  | .wrap k s, h, i => nodeWrap (M k s.cat) fuel (fun h' i' => transfer M fuel s h' i') h i
+  | .wrap k s, h, i => nodeWrap (M k s.wcat) fuel (fun h' i' => transfer M fuel s h' i') h i
   | .wrapN k p opts, h, i =>
     transferOpts M fuel k (M (fallbackSite k p opts).1 (fallbackSite k p opts).2) opts (pickIdx p opts h i) h i
   | .owned s, h, i => nodeOwned (M .owner .none) fuel (fun h' i' => transfer M fuel s h' i') h i
@@ -384,7 +393,7 @@ termination_by structural s => s
 def transferOpts (M : Kind → Cat → Mode) (fuel : Nat) (k : Kind) (fb : Mode) : List Shape → Nat → Heap → Item → R Item
   | [], _, h, i => leafAny fb fuel h i
   | s :: rest, n, h, i =>
-    optStep (nodeWrap (M k s.cat) fuel (fun h' i' => transfer M fuel s h' i'))
+    optStep (nodeWrap (M k s.wcat) fuel (fun h' i' => transfer M fuel s h' i'))
       (fun n' h' i' => transferOpts M fuel k fb rest n' h' i') n h i
 termination_by structural opts => opts
 def transferFields (M : Kind → Cat → Mode) (fuel : Nat) :
@@ -411,14 +420,14 @@ def safeShape (M : Kind → Cat → Mode) : Shape → Bool
   | .untyped => (M .any .none).copies
   | .coll k s => (M k s.cat).copies && safeShape M s
   | .keyed k fs => (M k .none).copies && safeFields M fs
-  | .wrap k s => (M k s.cat).copies && safeShape M s
+  | .wrap k s => (M k s.wcat).copies && safeShape M s
   | .wrapN k p opts => (M (fallbackSite k p opts).1 (fallbackSite k p opts).2).copies && safeOpts M k opts
   | .owned s => safeShape M s
 termination_by structural s => s
 /-- whichever option takes the value, it copies -/
 def safeOpts (M : Kind → Cat → Mode) (k : Kind) : List Shape → Bool
   | [] => true
-  | s :: rest => (M k s.cat).copies && safeShape M s && safeOpts M k rest
+  | s :: rest => (M k s.wcat).copies && safeShape M s && safeOpts M k rest
 termination_by structural opts => opts
 def safeFields (M : Kind → Cat → Mode) : List (String × Shape) → Bool
   | [] => true
@@ -434,13 +443,13 @@ def sitesOf : Shape → List (Kind × Cat)
   | .untyped => [(.any, .none)]
   | .coll k s => (k, s.cat) :: sitesOf s
   | .keyed k fs => (k, .none) :: sitesOfFields fs
-  | .wrap k s => (k, s.cat) :: sitesOf s
+  | .wrap k s => (k, s.wcat) :: sitesOf s
   | .wrapN k p opts => fallbackSite k p opts :: sitesOfOpts k opts
   | .owned s => (.owner, .none) :: sitesOf s
 termination_by structural s => s
 def sitesOfOpts (k : Kind) : List Shape → List (Kind × Cat)
   | [] => []
-  | s :: rest => (k, s.cat) :: (sitesOf s ++ sitesOfOpts k rest)
+  | s :: rest => (k, s.wcat) :: (sitesOf s ++ sitesOfOpts k rest)
 termination_by structural opts => opts
 def sitesOfFields : List (String × Shape) → List (Kind × Cat)
   | [] => []
